@@ -658,6 +658,19 @@ class TunnelScenario(Scenario):
 
 class TunnelOnTunnelEndpoint(TunnelScenario):
     te = True
+    APP_PREFIX = b"\x00\x02" + b"c11-anonymized-app--"
+
+    def stimulate(self, ctx: Ctx) -> None:
+        super().stimulate(ctx)
+        # ipv8_service puts every overlay of a node on ONE TunnelEndpoint: an application overlay of this node that
+        # asked for anonymity (Community.__init__ registers its prefix) keeps sending after the tunnel overlay was
+        # unloaded - the endpoint then asks "its" tunnel community for a circuit
+        ep = ctx.ov.endpoint
+        if isinstance(ep, TunnelEndpoint):
+            def app_sends() -> None:
+                ep.set_anonymity(self.APP_PREFIX, True)
+                ep.send(OUTSIDE, self.APP_PREFIX + b"\x01application data")
+            ctx.call(ctx.nut_name, app_sends)
 
 
 class TunnelOnStatisticsEndpoint(TunnelScenario):
@@ -1032,7 +1045,7 @@ def all_scenarios() -> list[Scenario]:
         TunnelScenario("O"), TunnelScenario("R"), TunnelScenario("X"),
         TunnelScenario("X", hops=1, quick=False), TunnelScenario("R", hops=3, quick=False),
         TunnelScenario("R2", hops=3, quick=False), TunnelScenario("X", hops=3, quick=False),
-        TunnelOnTunnelEndpoint("X"), TunnelOnTunnelEndpoint("O", quick=False), TunnelOnTunnelEndpoint("R", quick=False),
+        TunnelOnTunnelEndpoint("X"), TunnelOnTunnelEndpoint("O"), TunnelOnTunnelEndpoint("R", quick=False),
         TunnelOnStatisticsEndpoint("X"), TunnelOnStatisticsEndpoint("O"), TunnelOnStatisticsEndpoint("R", quick=False),
         HiddenScenario("O"), HiddenScenario("X"), HiddenScenario("R", quick=False),
         ServiceScenario(0), ServiceScenario(1), ServiceScenario(2),
